@@ -6,6 +6,16 @@ from . import build
 VERIF = build.VERIF
 
 
+def _conformance_digest():
+    """summary of the last full run of the interpreter conformance corpus (conformance/RESULTS.json; not re-run by the checks)"""
+    try:
+        d = json.load(open(os.path.join(VERIF, "conformance", "RESULTS.json")))
+        return {"corpus": "conformance/ (crate mirconf)", "corpus_hash": d.get("corpus_hash"), **{k: d["summary"].get(k) for k in ("cases", "agree", "mismatch", "unsupported", "inputs_compared")},
+                "how": "python3-vt -m mirsym.conformance: every case executed symbolically over all paths, solver models run against the native build"}
+    except Exception:
+        return None
+
+
 def report(pid, tier, seed, spec, vcs, results, wall):
     crashes = [r for r in results if "crash" in r]
     ok = [r for r in results if "crash" not in r]
@@ -69,6 +79,7 @@ def report(pid, tier, seed, spec, vcs, results, wall):
             "second_solver": {"name": "cvc5 1.0 (SMT-LIB2 dump of each non-trivial obligation, thorough tier of specs that opt in)",
                               "agree": sum(r.get("second_solver", {}).get("agree", 0) for r in ok), "disagree": sum(r.get("second_solver", {}).get("disagree", 0) for r in ok),
                               "no_answer": sum(r.get("second_solver", {}).get("no-answer", 0) for r in ok)},
+            "interpreter_conformance": _conformance_digest(),
             "known_findings_matched": known, "inconclusive": inconcl[:10], "unsupported": unsupported[:10], "vacuity": vacuous,
             "tree": build.tree_hash(),
         },
